@@ -47,6 +47,10 @@ def l4(rep):
             key = "siblings:%s:%s~%s" % (unit, a, b)
             if r is None:
                 rep.ok("L4", key, sample={"pair": [a, b], "tokens": "identical after renaming"} if n in (1, 12) else None)
+            elif siblings.kind_of_difference(r) == "shape":
+                raise AnalysisBroken("the siblings %s and %s of %s no longer have the same shape (token %d: `%s` against `%s`): this rule "
+                                     "only judges pairs that differ in an operator, constant, callee or member; a restructured sibling has "
+                                     "to be re-confirmed by hand" % (a, b, unit, r[0], r[1], r[3]))
             else:
                 i, ta, la, tb, lb, na, nb = r
                 rep.violation("L4", key, "%s:%d (%s) / %s:%d (%s)" % (unit, la, a, unit, lb, b),
